@@ -472,6 +472,7 @@ def dict_comprehension(it, st, node) -> V:
         raise Unsupported(f"{it.site(node)}: dict comprehension over {src!r}")
     st.counter += 1
     r = z3.Const(f"dictcomp!{st.counter}", ValS)
+    eng.assume(st, r != none_val)  # a comprehension yields a dict object, never None
     vocab = list(EXT_KEY_VOCAB)
     fn = it.fi.node if getattr(it, "fi", None) is not None else None
     for n in ast.walk(fn) if fn is not None else []:
